@@ -18,7 +18,9 @@ META = {
     "text": "All lists of 0..7 (quick) / 0..9 (thorough) auth sources over the outcomes {succeeds, raises "
             "AuthenticationException, raises SSHException, raises ValueError} (21 845 / 349 525 lists), plus "
             "0..4 / 0..6 sources over 6 outcomes incl. BadAuthenticationType and OSError (1 555 / 55 987 lists), produced lazily by "
-            "a generator; the real AuthStrategy.authenticate runs each list. Oracle: source.authenticate is "
+            "a generator; plus all lists of 0..5 / 0..6 sources over the 4 outcomes whose members all print identically "
+            "(equal repr) or additionally compare/hash equal while being distinct objects with their own outcomes; "
+            "the real AuthStrategy.authenticate runs each list. Oracle: source.authenticate is "
             "called once per source in production order with the given transport, never after the first "
             "success; on success the return value lists exactly the attempted sources paired with the "
             "exception object they raised or the value returned; otherwise AuthFailure is raised whose .result "
@@ -49,9 +51,18 @@ def make_exc(name, i):
     raise KeyError(name)
 
 
+LOOKS = ["distinct", "identical-repr", "equal-and-identical-repr"]
+
+
 class ScriptedSource(AuthSource):
-    def __init__(self, i, outcome, log):
+    """`look` = how the sources of one list present themselves: "distinct" (repr names index and outcome),
+    "identical-repr" (every source prints the same, like AuthSource's default repr or two Password sources for
+    one user), "equal-and-identical-repr" (additionally all compare and hash equal).  They stay distinct objects
+    with their own outcome: each one produced must be tried."""
+
+    def __init__(self, i, outcome, log, look="distinct"):
         super().__init__(username="u")
+        self.look = look
         self.i = i
         self.outcome = outcome
         self.log = log
@@ -59,7 +70,17 @@ class ScriptedSource(AuthSource):
         self.returned = None
 
     def __repr__(self):
+        if self.look != "distinct":
+            return self._repr(user=self.username)
         return "ScriptedSource(%d, %s)" % (self.i, self.outcome)
+
+    def __eq__(self, other):
+        if self.look == "equal-and-identical-repr":
+            return isinstance(other, ScriptedSource)
+        return self is other
+
+    def __hash__(self):
+        return 44 if self.look == "equal-and-identical-repr" else id(self)
 
     def authenticate(self, transport):
         self.log.append(("auth", self.i, transport))
@@ -71,15 +92,16 @@ class ScriptedSource(AuthSource):
 
 
 class ScriptedStrategy(AuthStrategy):
-    def __init__(self, outcomes):
+    def __init__(self, outcomes, look="distinct"):
         super().__init__(ssh_config=None)
+        self.look = look
         self.outcomes = outcomes
         self.calls = []
         self.sources = []
 
     def get_sources(self):
         for i, o in enumerate(self.outcomes):
-            src = ScriptedSource(i, o, self.calls)
+            src = ScriptedSource(i, o, self.calls, self.look)
             self.sources.append(src)
             self.calls.append(("produce", i))
             yield src
@@ -193,7 +215,31 @@ def run_list(outcomes, strat=None):
     return None
 
 
+def run_look(outcomes, look):
+    """The list again with look-alike sources; judged only if the list passes with every weaker look (so one
+    defect is reported under the weakest look that triggers it)."""
+    for weaker in LOOKS[:LOOKS.index(look)]:
+        if run_list(outcomes, ScriptedStrategy(list(outcomes), weaker)) is not None:
+            return None
+    res = run_list(outcomes, ScriptedStrategy(list(outcomes), look))
+    if res is not None:
+        return (res[0] + ":only-when-sources-have-" + look, dict(res[1], look=look))
+    return None
+
+
 def work(item, acc):
+    if item[0] == "look":
+        _, look, alpha, n = item
+        for k in range(0, n + 1):
+            for outcomes in itertools.product(alpha, repeat=k):
+                acc.ev()
+                if k >= 2:
+                    acc.nt((look,) + outcomes)
+                res = run_look(outcomes, look)
+                if res is not None:
+                    acc.violation(res[0], {"outcomes": list(outcomes), **res[1]},
+                                  {"outcomes": list(outcomes), "look": look})
+        return
     if item[0] == "reuse":
         _, alpha, n = item
         lists = [t for k in range(0, n + 1) for t in itertools.product(alpha, repeat=k)]
@@ -236,6 +282,10 @@ def plan(tier):
         items += [(OUTCOMES6, n, p) for p in itertools.product(OUTCOMES6, repeat=k)]
     # strategy objects are reusable: every pair of lists of <= 2 (quick) / 3 (thorough) sources on one object
     items.append(("reuse", OUTCOMES4, 2 if tier == "quick" else 3))
+    # look-alike sources: every list of <= 5 (quick) / 6 (thorough) sources whose members print identically /
+    # also compare equal (distinct objects, own outcomes): none may be skipped or merged in the report
+    for look in LOOKS[1:]:
+        items.append(("look", look, OUTCOMES4, 5 if tier == "quick" else 6))
     return items, nmax
 
 
@@ -244,19 +294,26 @@ def main(tier):
         PID, tier, "exploration",
         "case = one list of scripted sources (outcome per source: succeeds / raises one of the exception "
         "classes), all lists up to the length bound, sources yielded lazily by get_sources(); every case is one "
-        "call of the real AuthStrategy.authenticate; nontrivial = distinct lists with >=2 sources (ordering and "
-        "stopping matter)",
+        "call of the real AuthStrategy.authenticate; extra dimensions: strategy object reused for a second call; "
+        "source look (distinct repr / all sources of the list have identical repr / also compare and hash equal); "
+        "nontrivial = distinct (look, list) with >=2 sources (ordering and stopping matter)",
         ["a source succeeds iff authenticate() returns (it returns [] like Transport.auth_* on success)",
          "exceptions compared by identity, or same class and args",
          "only Exception subclasses are raised by sources (KeyboardInterrupt etc. out of scope)"])
     items, nmax = plan(tier)
     ck.merge(core.pmap(items, work))
     ck.extra["bound"] = {"max_sources": nmax, "outcomes": OUTCOMES4,
-                         "extra_outcomes": OUTCOMES6[4:], "max_sources_with_extra_outcomes": 4 if tier == "quick" else 6}
+                         "extra_outcomes": OUTCOMES6[4:], "source_looks": LOOKS,
+                         "max_sources_with_lookalike_sources": 5 if tier == "quick" else 6, "max_sources_with_extra_outcomes": 4 if tier == "quick" else 6}
     return ck.finish()
 
 
 def replay(rec):
+    if rec["replay"].get("look"):
+        outcomes, look = tuple(rec["replay"]["outcomes"]), rec["replay"]["look"]
+        res = run_look(outcomes, look)
+        print("source outcomes:", outcomes, "sources look:", look, "verdict:", res or "ok")
+        return 1 if res else 0
     if "reuse" in rec["replay"]:
         first, second = (tuple(x) for x in rec["replay"]["reuse"])
         res = run_reused(first, second)
